@@ -216,10 +216,9 @@ theorem exit_bound_aux {d Q tol m A : ℝ} (htol : 0 < tol) (hm : 0 < m) (hd : |
   rw [abs_div, abs_mul, abs_of_pos hm, div_lt_iff₀ hpos]
   nlinarith
 
-set_option linter.unusedVariables false in
 /-- if the loop of `RF` ended through its test (not through the trip cap), the three relative deviations are below
     `tolRF`, hence their eighth powers below `3ε/100` -/
-theorem rf_exit_bound (x y z : ℝ) (hx : 0 ≤ x) (hy : 0 ≤ y) (hz : 0 ≤ z) (h2 : 0 < x + y ∧ 0 < y + z ∧ 0 < z + x)
+theorem rf_exit_bound (x y z : ℝ)
     (hexit : ¬ ((rfRun x y z).mul * |(rfRun x y z).An| ≤ rfQ x y z)) :
     let A0 := (x + y + z) / 3
     let s := rfRun x y z
@@ -240,14 +239,14 @@ theorem rf_exit_bound (x y z : ℝ) (hx : 0 ≤ x) (hy : 0 ≤ y) (hz : 0 ≤ z)
     exit_bound_aux ht hmul (div_le_div_of_nonneg_right m3 ht.le) hQ⟩
 
 /-- the eighth-power form of `rf_exit_bound`: each relative deviation satisfies `|X|⁸ < 3ε/100` -/
-theorem rf_exit_bound_pow8 (x y z : ℝ) (hx : 0 ≤ x) (hy : 0 ≤ y) (hz : 0 ≤ z) (h2 : 0 < x + y ∧ 0 < y + z ∧ 0 < z + x)
+theorem rf_exit_bound_pow8 (x y z : ℝ)
     (hexit : ¬ ((rfRun x y z).mul * |(rfRun x y z).An| ≤ rfQ x y z)) :
     let A0 := (x + y + z) / 3
     let s := rfRun x y z
     |(A0 - x) / (s.mul * s.An)| ^ 8 < 3 / 100 * (1 / 2 ^ 52) ∧ |(A0 - y) / (s.mul * s.An)| ^ 8 < 3 / 100 * (1 / 2 ^ 52) ∧
     |(A0 - z) / (s.mul * s.An)| ^ 8 < 3 / 100 * (1 / 2 ^ 52) := by
   intro A0 s
-  obtain ⟨b1, b2, b3⟩ := rf_exit_bound x y z hx hy hz h2 hexit
+  obtain ⟨b1, b2, b3⟩ := rf_exit_bound x y z hexit
   rw [← tolRF_pow.1]
   exact ⟨pow_lt_pow_left₀ b1 (abs_nonneg _) (by norm_num), pow_lt_pow_left₀ b2 (abs_nonneg _) (by norm_num),
     pow_lt_pow_left₀ b3 (abs_nonneg _) (by norm_num)⟩
